@@ -16,46 +16,6 @@ The full property is FALSE on the pinned tree (the property text says so); what 
 import SemaModel.C09.Lemmas
 namespace Sema.C09
 
-/-! ### the disk and the schedules used by the witnesses and examples -/
-
-/-- items 1, 2, 3 (and 7, the point a writer deletes in w2b) in index 0, each with a point record -/
-def exDisk : Disk :=
-  { idx := fun n i => if n = 0 ∧ (i = 1 ∨ i = 2 ∨ i = 3 ∨ i = 7) then some i else none,
-    pts := fun i => if i = 1 ∨ i = 2 ∨ i = 3 ∨ i = 7 then some i else none }
-
-theorem exDisk_WF : exDisk.WF := by
-  intro n i h
-  simp only [exDisk] at h ⊢
-  split at h
-  · rename_i hc; simp [hc.2]
-  · exact absurd rfl h
-
-def badOf (o : Option State) : Option Bad := match o with | some s => s.bad | none => none
-def flagsOf (o : Option State) (t : TxId) : Option (Bool × Bool × Bool) :=
-  match o with
-  | some s => (s.txs t).map fun tx => (tx.u1, tx.u2, tx.u3)
-  | none => none
-
-/-- w1: readers 1 and 2 share the new cache object of index 0; 2 called `UpdateBucket` last and ends;
-1 reads an item that is not cached: through the dead handle of 2 -/
-def w1 : List Label :=
-  [.beginR 1, .access 1 0, .read 1 0 1, .beginR 2, .access 2 0, .read 2 0 1, .read 2 0 3, .leave 2 0, .closeTx 2 true,
-   .read 1 0 2]
-
-/-- w2a: reader 1 begins; writer 2 inserts item 8 (with its point), commits and releases the cache;
-reader 1 finds 8 in the shared cache and back-fills it from its own snapshot -/
-def w2a : List Label :=
-  [.beginR 1, .beginW 2, .access 2 0, .wr 2 (.setPt 8 208), .wr 2 (.put 0 8 208), .closeTx 2 true, .release 2 0,
-   .access 1 0, .read 1 0 8, .leave 1 0, .backfill 1 8]
-
-/-- w2b: reader 1 begins; writer 2 deletes item 7, commits and releases; reader 1 reads 7 through the
-shared cache (a miss: read from its old snapshot and cached); it ends; reader 3, which began after
-everything else had ended, hits the stale 7 and back-fills it from its snapshot -/
-def w2b : List Label :=
-  [.beginR 1, .beginW 2, .access 2 0, .wr 2 (.del 0 7), .wr 2 (.delPt 7), .closeTx 2 true, .release 2 0,
-   .access 1 0, .read 1 0 7, .leave 1 0, .backfill 1 7, .closeTx 1 true,
-   .beginR 3, .access 3 0, .read 3 0 7, .leave 3 0, .backfill 3 7]
-
 /-! ### what holds -/
 
 /-- **C09_private_safe.** Shared cache disabled (`maxSize = 0`): under EVERY schedule no unsafe event is
@@ -90,13 +50,6 @@ theorem C09_serial_equiv (shared : Bool) (d0 : Disk) (sched : List Label) (s : S
 example : (match run (init true exDisk) w2b with | some s => s.log | none => []) = [[.del 0 7, .delPt 7]] := by decide
 example : (match run (init true exDisk) [.beginW 2, .access 2 0, .wr 2 (.del 0 7), .closeTx 2 false] with
     | some s => s.log | none => [[]]) = [] := by decide
-
-/-- The cache-coherence invariant of the quiescent state: every object in the manager's map is an
-object of that index, is not write-held, and every item it caches is what the latest committed disk
-holds; object ids are allocated. -/
-structure Coherent (s : State) : Prop where
-  map : ∀ n o, s.map n = some o → ∃ ob, s.objs o = some ob ∧ ob.name = n ∧ ob.writer = none ∧ Agree ob n s.latest
-  bound : ∀ o ob, s.objs o = some ob → o < s.nextObj
 
 /-- **C09_quiescent_warm_cold.** In a state whose shared cache is coherent, a search `t` that runs
 alone (no other step interleaves: the writers have finished) observes on the warm shared cache
@@ -135,6 +88,39 @@ coherent-looking enough for a lone search to read the inserted item both warm an
 example : (match run (init true exDisk) [.beginW 2, .access 2 0, .wr 2 (.setPt 8 208), .wr 2 (.put 0 8 208),
       .closeTx 2 true, .release 2 0, .beginR 3, .access 3 0, .read 3 0 8, .read 3 0 1, .leave 3 0, .backfill 3 8, .closeTx 3 true] with
     | some s => (s.txs 3).map (·.obs) | none => none) = some [(0, 1, some 1), (0, 8, some 208)] := by decide
+
+/-- **C09_partial.** Safety for schedules in which no two transactions overlap on one cache name:
+`runNO` lets a transaction enter `With` for index `n` (`access t n`) only if every other
+transaction that ever used the cache of `n` has ended, has released it (writers: `cacheTx.Commit`)
+and ended no later, in commits, than `t` began (`mayAccess`); all other steps are unrestricted
+(any number of transactions, commits on other indexes, evictions at any time).  Then, shared cache
+or not, no unsafe event is reachable: no read through a dead handle, no back-fill of a missing
+point, every read returns what the reader's own snapshot holds.
+Hypothesis: every committed disk is well formed. -/
+theorem C09_partial (shared : Bool) (d0 : Disk) (sched : List Label) (s : State)
+    (hrun : runNO (init shared d0) sched = some s) (hwf : ∀ d ∈ s.disks, d.WF) :
+    s.bad = none ∧ ∀ t tx, s.txs t = some tx → tx.u1 = false ∧ tx.u2 = false ∧ tx.u3 = false := by
+  have h := (runNO_inv sched _ _ ⟨noInv_init shared d0, obsInv_init shared d0⟩ hrun).2
+  have h2 := h.f2 hwf
+  refine ⟨?_, fun t tx ht => ⟨(h.f13.tx t tx ht).1, h2.2 t tx ht, (h.f13.tx t tx ht).2⟩⟩
+  rcases h.f13.bad with hb | hb
+  · exact hb
+  · exact absurd hb h2.1
+
+/-- ... and when every transaction is done with every cache, the shared cache is coherent, so
+`C09_quiescent_warm_cold` applies to the state the discipline leaves behind. -/
+theorem C09_partial_coherent (shared : Bool) (d0 : Disk) (sched : List Label) (s : State)
+    (hrun : runNO (init shared d0) sched = some s) (hq : Quiescent s) : Coherent s :=
+  noInv_coherent (runNO_inv sched _ _ ⟨noInv_init shared d0, obsInv_init shared d0⟩ hrun).1 hq
+
+/-- non-vacuity: the three transactions of w2b run one after the other pass the discipline on the
+shared cache (and touch it: the last reader is served from the cache the first one filled), while the
+discipline stops w1, w2a and w2b at the step that enters the cache while another user is not done -/
+example : flagsOf (runNO (init true exDisk) seqb) 3 = some (false, false, false) ∧
+    (match runNO (init true exDisk) seqb with | some s => (s.txs 3).map (·.obs) | none => none)
+      = some [(0, 2, some 2), (0, 1, some 1)] ∧
+    (runNO (init true exDisk) w1).isNone ∧ (runNO (init true exDisk) w2a).isNone ∧
+    (runNO (init true exDisk) w2b).isNone := by decide
 
 /-! ### what is false on the pinned tree, proved false -/
 
